@@ -448,3 +448,75 @@ Proof.
       match goal with |- context [ Qceiling ?t ] => setoid_replace t with (inject_Z kz * s) by (rewrite K; ring) end. reflexivity.
     + symmetry. exact K.
 Qed.
+
+
+(* ------------------------------------------------------------------ read_transport: the cell set-up
+
+   statements of Phreeqc::read_transport that determine max_cells, fill cell_data[].length / .disp and turn closed into flux
+   boundaries for advective runs (regenerated: Gen_C11_setup).  Canonical local names: v00 count_length, v01 count_disp,
+   v02 i, v03 length (the list read from -lengths), v04 i (size_t), v05 disp (the list read from -dispersivities).
+   Transcribed into Setup.v (max_cells, fill with defaults 1 and 0 for ALL cells 1..max_cells when the column has grown,
+   given values then the last one repeated) and Transport.read_bc. *)
+From IPV.Gen Require Import Gen_C11_setup.
+From IPV.C11 Require Import Setup.
+
+Definition expected_shape_setup : list (string * list string) := [
+  ("assign max_cells := S_max_cells_1"%string, []);
+  ("assign max_cells := S_max_cells_2"%string, ["(max_cells<v00)"%string]);
+  ("assign max_cells := S_max_cells_3"%string, ["(max_cells<v01)"%string]);
+  ("assign error_string := call sformatf"%string, ["(v00==0)"%string; "(old_cells<max_cells)"%string]);
+  ("call warning_msg"%string, ["(v00==0)"%string; "(old_cells<max_cells)"%string]);
+  ("assign cell.length[v02] := S_cell_length_v02_1"%string, ["(v00==0)"%string; "(old_cells<max_cells)"%string; "for((v02=1);(v02<=max_cells);++(v02))"%string]);
+  ("assign cell.length[v02] := S_cell_length_v02_2"%string, ["!(v00==0)"%string; "for((v02=1);(v02<=v00);++(v02))"%string]);
+  ("assign error_string := call sformatf"%string, ["!(v00==0)"%string; "(v00<max_cells)"%string]);
+  ("call warning_msg"%string, ["!(v00==0)"%string; "(v00<max_cells)"%string]);
+  ("assign cell.length[v04+1] := S_cell_length_v04_1_1"%string, ["!(v00==0)"%string; "(v00<max_cells)"%string; "for((v04=v00);(v04<=max_cells);++(v04))"%string]);
+  ("assign error_string := call sformatf"%string, ["(v01==0)"%string; "(old_cells<max_cells)"%string]);
+  ("call warning_msg"%string, ["(v01==0)"%string; "(old_cells<max_cells)"%string]);
+  ("assign cell.disp[v02] := S_cell_disp_v02_1"%string, ["(v01==0)"%string; "(old_cells<max_cells)"%string; "for((v02=1);(v02<=max_cells);++(v02))"%string]);
+  ("assign cell.disp[v02] := S_cell_disp_v02_2"%string, ["!(v01==0)"%string; "for((v02=1);(v02<=v01);++(v02))"%string]);
+  ("assign error_string := call sformatf"%string, ["!(v01==0)"%string; "(v01<max_cells)"%string]);
+  ("call warning_msg"%string, ["!(v01==0)"%string; "(v01<max_cells)"%string]);
+  ("assign cell.disp[v02+1] := S_cell_disp_v02_1_1"%string, ["!(v01==0)"%string; "(v01<max_cells)"%string; "for((v02=v01);(v02<=max_cells);++(v02))"%string]);
+  ("call warning_msg"%string, ["((ishift!=0)&&((bcon_first==2)||(bcon_last==2)))"%string]);
+  ("assign bcon_first := S_bcon_first_1"%string, ["((ishift!=0)&&((bcon_first==2)||(bcon_last==2)))"%string; "(bcon_first==2)"%string]);
+  ("assign bcon_last := S_bcon_last_1"%string, ["((ishift!=0)&&((bcon_first==2)||(bcon_last==2)))"%string; "(bcon_last==2)"%string])
+].
+
+Lemma shape_setup_ok : shape_setup = expected_shape_setup.
+Proof. vm_compute. reflexivity. Qed.
+
+(* the values written: default length 1, default dispersivity 0, given values, last given value; closed -> flux = 3 *)
+Lemma gen_setup_values : forall (gl gd : nat -> Q) (i cl cd : Q),
+  S_cell_length_v02_1 (env []) == 1 /\ S_cell_disp_v02_1 (env []) == 0 /\
+  S_cell_length_v02_2 (env [("v03[v02-1]"%string, i)]) == i /\ S_cell_disp_v02_2 (env [("v05[v02-1]"%string, i)]) == i /\
+  S_cell_length_v04_1_1 (env [("v03[v00-1]"%string, cl)]) == cl /\ S_cell_disp_v02_1_1 (env [("v05[v01-1]"%string, cd)]) == cd /\
+  S_bcon_first_1 (env []) == 3 /\ S_bcon_last_1 (env []) == 3.
+Proof.
+  intros. unfold S_cell_length_v02_1, S_cell_disp_v02_1, S_cell_length_v02_2, S_cell_disp_v02_2, S_cell_length_v04_1_1,
+    S_cell_disp_v02_1_1, S_bcon_first_1, S_bcon_last_1. leaf. repeat split; reflexivity.
+Qed.
+
+(* max_cells = count_cells, raised to count_length and count_disp *)
+Lemma gen_setup_max_cells : forall (cc : nat) (gl gd : list Q),
+  inject_Z (Z.of_nat (max_cells cc gl gd)) ==
+  (let c := inject_Z (Z.of_nat cc) in let nl := inject_Z (Z.of_nat (length gl)) in let nd := inject_Z (Z.of_nat (length gd)) in
+   let m0 := S_max_cells_1 (env [("count_cells"%string, c)]) in
+   let m1 := if Qltb m0 nl then S_max_cells_2 (env [("v00"%string, nl)]) else m0 in
+   if Qltb m1 nd then S_max_cells_3 (env [("v01"%string, nd)]) else m1).
+Proof.
+  intros. unfold S_max_cells_1, S_max_cells_2, S_max_cells_3, max_cells. leaf.
+  assert (Q1 : forall a b : nat, Qltb (inject_Z (Z.of_nat a)) (inject_Z (Z.of_nat b)) = Nat.ltb a b).
+  { intros a b. unfold Qltb. destruct (Nat.ltb a b) eqn:E.
+    - apply Nat.ltb_lt in E. destruct (Qle_bool (inject_Z (Z.of_nat b)) (inject_Z (Z.of_nat a))) eqn:E2; auto.
+      apply Qle_bool_iff in E2. rewrite <- Zle_Qle in E2. lia.
+    - apply Nat.ltb_ge in E. assert (H : Qle_bool (inject_Z (Z.of_nat b)) (inject_Z (Z.of_nat a)) = true); [|rewrite H; reflexivity].
+      apply Qle_bool_iff. rewrite <- Zle_Qle. lia. }
+  rewrite Q1. destruct (Nat.ltb cc (length gl)) eqn:E1; rewrite Q1.
+  - apply Nat.ltb_lt in E1. destruct (Nat.ltb (length gl) (length gd)) eqn:E2.
+    + apply Nat.ltb_lt in E2. replace (Nat.max cc (Nat.max (length gl) (length gd))) with (length gd) by lia. reflexivity.
+    + apply Nat.ltb_ge in E2. replace (Nat.max cc (Nat.max (length gl) (length gd))) with (length gl) by lia. reflexivity.
+  - apply Nat.ltb_ge in E1. destruct (Nat.ltb cc (length gd)) eqn:E2.
+    + apply Nat.ltb_lt in E2. replace (Nat.max cc (Nat.max (length gl) (length gd))) with (length gd) by lia. reflexivity.
+    + apply Nat.ltb_ge in E2. replace (Nat.max cc (Nat.max (length gl) (length gd))) with cc by lia. reflexivity.
+Qed.
